@@ -85,7 +85,11 @@ theorem step_healthy (prev : Cache) (hp : AllBlob prev) (s : St) (seen : List Na
         · exact hi.has h hh
         · rename_i hne; exact absurd hh.symm hne
     | none =>
-      refine ⟨⟨put s.out src.hash .blob, s.next⟩, by simp [stepChg, hg], allBlob_put hi.out _, hi.next, ?_⟩
+      have hs := hc src (by simp [Chg.ents])
+      have hnc : (src.present && src.corrupt) = false := by
+        unfold getBlob at hs
+        cases hp' : src.present <;> cases hc' : src.corrupt <;> simp [hp', hc'] at hs ⊢
+      refine ⟨⟨put s.out src.hash .blob, s.next⟩, by simp [stepChg, hg, hnc], allBlob_put hi.out _, hi.next, ?_⟩
       intro h hh
       simp only [Chg.ents, List.map_cons, List.map_nil, List.mem_append, List.mem_singleton] at hh
       simp only [get_put]
